@@ -309,6 +309,9 @@ def gen_cases(rec, rng, tier):
     for _ in range(150 if thorough else 14):
         RP = pdag.random_pda(rng, rng.randint(1, 4), rng.randint(1, 2), rng.randint(0, 3), rng.randint(1, 8), p_eps=rng.choice([0.3, 0.5, 0.7]))
         yield {'kind': 'pda', 'cls': 'random_pda', 'ref': RP, 'n': 4 if len(RP[1]) == 2 else 5, 'limit': rng.choice([5, 12, 30, 50]), 'eps': rng.choice(['', '_'])}
+        RPx = pdag.exotic_names(rng, RP)
+        if RPx is not None and rng.random() < 0.5:
+            yield {'kind': 'pda', 'cls': 'pda_exotic_state_names', 'ref': RPx, 'n': 4 if len(RP[1]) == 2 else 5, 'limit': rng.choice([12, 30]), 'eps': ''}
     for _ in range(300 if thorough else 25):
         RG = cfgg.random_cnf(rng, rng.randint(1, 5), rng.randint(0, 7), nt=rng.randint(1, 2))
         yield {'kind': 'cfg', 'cls': 'random_cnf', 'ref': RG, 'n': 5 if len(RG[1]) == 2 else 7, 'notebook': True}
